@@ -449,7 +449,7 @@ func init() {
 			if cc.column != "" {
 				ctx = encbase.NewContextWithEncryptionSetting(ctx, pgSchema.GetTableSchema("t").GetColumnEncryptionSettings(cc.column))
 			}
-			ctx1, out, err := pgDec.OnColumn(ctx, append([]byte{}, val...))
+			ctx1, out, err := pgDec.OnColumn(ctx, dup(val))
 			if err != nil {
 				return err
 			}
@@ -458,7 +458,7 @@ func init() {
 				ctx2, out2 = ctx1, out
 			}
 			_, _, err = pgEnc.OnColumn(ctx2, out2)
-			_, _, _ = pgEnc.OnColumn(ctx1, append([]byte{}, val...))
+			_, _, _ = pgEnc.OnColumn(ctx1, dup(val))
 			return err
 		}})
 
